@@ -990,7 +990,7 @@ static inline int myth_join_counter_wait_body(myth_join_counter_t * jc) {
   while (1) {
     MYTH_VERIF_POINT(73);
     long s = jc->state;
-    MYTH_VERIF_EV5("JcLd", VJC(jc), s, 0, jc->n_threads, jc->n_threads_bits);
+    MYTH_VERIF_EV6("JcLd", VJC(jc), (s & jc->state_mask), 0, jc->n_threads, jc->n_threads_bits, (s >> jc->n_threads_bits));
     if ((s & jc->state_mask) == jc->n_threads) {
       return 0;
     }
@@ -1000,10 +1000,10 @@ static inline int myth_join_counter_wait_body(myth_join_counter_t * jc) {
     if (! __sync_bool_compare_and_swap(&jc->state, s, new_s)) {
       /* another thread may have just decrement it, so I may
 	 have to keep going */
-      MYTH_VERIF_EV4("JcCas", VJC(jc), s, new_s, 0);
+      MYTH_VERIF_EV6("JcCas", VJC(jc), (s & jc->state_mask), (s >> jc->n_threads_bits), (new_s & jc->state_mask), (new_s >> jc->n_threads_bits), 0);
       continue;
     }
-    MYTH_VERIF_EV4("JcCas", VJC(jc), s, new_s, 1);
+    MYTH_VERIF_EV6("JcCas", VJC(jc), (s & jc->state_mask), (s >> jc->n_threads_bits), (new_s & jc->state_mask), (new_s >> jc->n_threads_bits), 1);
     myth_block_on_queue(jc->sleep_q, 0);
     assert((jc->state & jc->state_mask) == jc->n_threads);
   }
@@ -1013,7 +1013,7 @@ static inline int myth_join_counter_dec_body(myth_join_counter_t * jc) {
   while (1) {
     MYTH_VERIF_POINT(73);
     long s = jc->state;
-    MYTH_VERIF_EV5("JcLd", VJC(jc), s, 1, jc->n_threads, jc->n_threads_bits);
+    MYTH_VERIF_EV6("JcLd", VJC(jc), (s & jc->state_mask), 1, jc->n_threads, jc->n_threads_bits, (s >> jc->n_threads_bits));
     long n_decs = s & jc->state_mask;
     if (n_decs >= jc->n_threads) {
       /* TODO: set errno and return */
@@ -1025,10 +1025,10 @@ static inline int myth_join_counter_dec_body(myth_join_counter_t * jc) {
     assert(((s + 1) & jc->state_mask) == (n_decs + 1));
     MYTH_VERIF_POINT(74);
     if (!__sync_bool_compare_and_swap(&jc->state, s, s + 1)) {
-      MYTH_VERIF_EV4("JcCas", VJC(jc), s, s + 1, 0);
+      MYTH_VERIF_EV6("JcCas", VJC(jc), (s & jc->state_mask), (s >> jc->n_threads_bits), ((s + 1) & jc->state_mask), ((s + 1) >> jc->n_threads_bits), 0);
       continue;
     }
-    MYTH_VERIF_EV4("JcCas", VJC(jc), s, s + 1, 1);
+    MYTH_VERIF_EV6("JcCas", VJC(jc), (s & jc->state_mask), (s >> jc->n_threads_bits), ((s + 1) & jc->state_mask), ((s + 1) >> jc->n_threads_bits), 1);
     if (n_decs == jc->n_threads - 1) {
       /* I am the last one. wake up all guys.
 	 TODO: spin block */
